@@ -51,6 +51,7 @@ class Acc:
         self.max_d = 0
         self.cpu_s = 0.0
         self.crashed_baselines = []
+        self.pairs = {}        # "optimizer|prototype|mode" -> [executions, failed]
 
     def add_exec(self, ex, finds):
         self.execs += 1
@@ -62,6 +63,10 @@ class Acc:
             self.ends_dev.add(e)
             self.taken += 1
         self.max_d = max(self.max_d, len(ex.dev))
+        pk = f"{ex.scn['opt']}|{ex.scn['proto']}"
+        pr = self.pairs.setdefault(pk, [0, 0])
+        pr[0] += 1
+        pr[1] += 1 if ex.exc is not None else 0
         order = (len(ex.dev), min(ex.dev) if ex.dev else -1)
         for prop, key, detail in finds:
             cur = self.findings.get(key)
@@ -96,6 +101,10 @@ class Acc:
         self.cpu_s += o.cpu_s
         self.errors += o.errors
         self.crashed_baselines += o.crashed_baselines
+        for k, v in o.pairs.items():
+            pr = self.pairs.setdefault(k, [0, 0])
+            pr[0] += v[0]
+            pr[1] += v[1]
         for s in o.samples:
             if len(self.samples) < 6:
                 self.samples.append(s)
@@ -104,7 +113,8 @@ class Acc:
         return {'findings': list(self.findings.values()), 'execs': self.execs, 'points': self.points,
                 'transitions': self.transitions, 'states': len(self.states), 'ends': len(self.ends),
                 'ends_dev': len(self.ends_dev), 'taken': self.taken, 'samples': self.samples, 'errors': self.errors,
-                'max_d': self.max_d, 'cpu_s': round(self.cpu_s, 1), 'crashed_baselines': self.crashed_baselines}
+                'max_d': self.max_d, 'cpu_s': round(self.cpu_s, 1), 'crashed_baselines': self.crashed_baselines,
+                'pairs': self.pairs}
 
 
 def _instrumented_run(scn, dev, expect=None):
